@@ -345,6 +345,12 @@ func C02(c *Ctx) {
 			if f == handle {
 				return // HandleIBTP is the gate; R02.3 checks what precedes
 			}
+			if f.Parent() != nil {
+				// a closure (e.g. the mutation handed to a load-modify-store helper) runs on behalf of the function
+				// that creates it
+				up(f.Parent())
+				return
+			}
 			cs := callersOf(f)
 			// a dispatchable invocable entry is a root as well
 			if ct := m.bvm.ContractOfFn(f); ct != nil {
